@@ -30,7 +30,7 @@ CFG = {
     "go_cmd": "c16",
     "stages": ["go:gen", "go:impl", "lean:judge"],
     "pregen": pregen,
-    "theorems": [T + n for n in ["getStartEnd_partition", "C16_geom", "C16_geom_unsupported", "C16_order", "C16_order_any_fields", "C16_order_schedule", "C16_order_struct", "C16_order_struct_written", "C16_decodeRow_assigned", "C16_order_encode",
+    "theorems": [T + n for n in ["getStartEnd_partition", "C16_geom", "C16_geom_unsupported", "C16_order", "C16_order_any_fields", "C16_order_schedule", "C16_order_struct", "C16_order_struct_written", "C16_order_mixed_written", "C16_decodeRow_assigned", "C16_order_encode",
                                  "C16_int", "C16_int_width", "C16_string", "C16_string_converse", "C16_string_iff", "C16_string_violations", "C16_float", "C16_float_render",
                                  "C16_match", "C16_assigned", "C16_match_none", "C16_match_fields",
                                  "C16_name_roundtrip", "C16_columns", "C16_match_self", "C16_struct_roundtrip",
@@ -49,7 +49,7 @@ CFG = {
         "cells parsed as numbers hold decimal literals or FormatFloat's NaN/+Inf/-Inf (hex floats, '_' and other spellings of inf/nan are not modelled)",
         "a shape of the file's own shape type per record (go-shp writes the FILE's type into every record header, so a Null shape in a typed file is not readable; outside the statement)",
     ],
-    "rule": "one case = one shapefile written and read back through real temporary files: writer NewEncoder/Encode (reflect.StructOf struct types with generated "
+    "rule": "one case = one shapefile written and read back through real temporary files: writer NewEncoder/Encode (for a third of these a WRITER schedule on the one encoder: record i written with Encode or EncodeFields according to entry i mod k, k=2..4) (reflect.StructOf struct types with generated "
             "names/tags/field order) or NewEncoderFromFields/EncodeFields (generated shp.Field lists), reader DecodeRow (perturbed struct: case, tag-vs-name, "
             "order, dropped/unmatched fields) or DecodeRowFields, or a reading SCHEDULE on one Decoder (record i read with call i mod k, k=2..4: DecodeRowFields with all names / subset / permuted / duplicates / none, mixed with DecodeRow); DecodeRow decodes into a fresh record variable per row or into ONE reused variable (per call site), with zero values ("", 0, 0.0) alternating with non-zero ones; 0-300 records of one geometry kind (point, multipoint, LineString, MultiLineString 0-6 parts "
             "incl. empty, polygon 0-5 rings closed/unclosed/closed-up-to-signed-zero, *Bounds incl. zero height/width, nil in NULL files), coordinates from random "
